@@ -61,6 +61,7 @@ CLAUSE = {"alpha-schedule": "C20", "update-iff-better-and-significant": "C20", "
           "extra-of-own-instance-by-current-baseline": "C17", "loss-or-duplication": "C17",
           "batches-carry-own-extra": "C17"}
 FIELDS = ["pc", "ep", "alpha", "pol", "blPol", "blVer", "evVer", "blVals", "blSum", "dsVer", "extras", "batches", "chal"]
+ENV, ENV0 = "REINFORCE+WarmupBaseline(RolloutBaseline)", "REINFORCE+RolloutBaseline"
 SPREAD = 8          # zero-mean +-SPREAD on the candidate's rewards: better on average, far from significant
 BAD = -777777       # "not a value the specification can produce"
 
@@ -500,29 +501,30 @@ def crash_site(exc):
     tb = exc.__traceback__
     frames = []
     while tb is not None:
-        frames.append((os.path.realpath(tb.tb_frame.f_code.co_filename), tb.tb_lineno))
+        frames.append((os.path.realpath(tb.tb_frame.f_code.co_filename), tb.tb_lineno, tb.tb_frame.f_code.co_name))
         tb = tb.tb_next
-    for fn, ln in reversed(frames):
+    for fn, ln, _ in reversed(frames):
         if "site-packages" in fn or fn.startswith("<"):
             continue
         if fn.startswith(os.path.join(repo, "rl4co")):
-            return "%s:%d" % (os.path.relpath(fn, repo), ln)
+            return "%s:%d" % (os.path.relpath(fn, repo), ln), any(f[2] == "wrap_dataset" for f in frames)
         return None
     return None
 
 
 def raised(exc, what, inst):
     """the library itself raised while following the protocol: a verdict (as `library-raised` of harness/check.py)"""
-    where = crash_site(exc)
-    if where is None or isinstance(exc, tlc.TLCError):
+    site = crash_site(exc)
+    if site is None or isinstance(exc, tlc.TLCError):
         raise exc
-    pid = "C17" if ("data/" in where or "common/base.py" in where) else "C20"
-    return {"property": pid, "env": "REINFORCE+WarmupBaseline(RolloutBaseline)", "monitor": "library-raised",
+    where, wrapping = site
+    pid = "C17" if ("data/" in where or "common/base.py" in where or wrapping) else "C20"
+    return {"property": pid, "env": ENV if inst.get("warmup_epochs", 1) else ENV0, "monitor": "library-raised",
             "inst": dict(inst, where=where), "actions": what, "detail": "%s: %s" % (type(exc).__name__, str(exc)[:300])}
 
 
 def mkviol(clause, prefix, rec, upto, detail):
-    return {"property": CLAUSE[clause], "env": "REINFORCE+WarmupBaseline(RolloutBaseline)", "monitor": prefix + clause,
+    return {"property": CLAUSE[clause], "env": ENV if rec["nWarm"] else ENV0, "monitor": prefix + clause,
             "inst": {"max_epochs": rec["maxEp"], "warmup_epochs": rec["nWarm"], "shuffle": rec.get("shuffle", False),
                      "note": rec.get("note", "")},
             "actions": [[e["a"]] + ([e["pol"]] if "pol" in e else []) + ([e["sig"]] if "sig" in e else []) for e in rec["ev"][:upto]],
